@@ -28,6 +28,7 @@ import (
 	"fmt"
 	"hash/fnv"
 	"io"
+	"os"
 	"reflect"
 	"sort"
 	"strconv"
@@ -523,6 +524,29 @@ type c07world struct {
 	arity   []int
 	enum    bool
 	curOp   string
+	// E3: the two buffers of a caller that reuses them for every record (a reader): it passes empty views of them
+	// (cb[0][:0] as sequence, cb[1][:0] as qualities) and keeps them; they are filled with 'Z' and must stay so
+	cb     [2][]byte
+	cbUsed bool
+}
+
+const c07cbLen = 8
+
+func c07cbName(k int) string { return [2]string{"caller-sequence-buffer", "caller-quality-buffer"}[k] }
+
+// cbDiff: "" when the caller's buffers still hold what the caller wrote in them
+func (w *c07world) cbDiff() string {
+	if !w.cbUsed {
+		return ""
+	}
+	for k := range w.cb {
+		for i, c := range w.cb[k] {
+			if c != 'Z' {
+				return fmt.Sprintf("%s[%d] now holds %q: the caller kept that buffer and only ever passed an EMPTY view of it (buf[:0])", c07cbName(k), i, c)
+			}
+		}
+	}
+	return ""
 }
 
 var c07cur *c07world
@@ -556,6 +580,11 @@ func (w *c07world) liveOwner(b []byte) string {
 	for j, t := range w.tps {
 		if t.held && c07data(t.b) == p {
 			return fmt.Sprintf("thirdparty%d", j)
+		}
+	}
+	for k := range w.cb {
+		if w.cbUsed && c07data(w.cb[k]) == p {
+			return "caller." + c07cbName(k)
 		}
 	}
 	return ""
@@ -839,11 +868,31 @@ func (w *c07world) newObj(impl *BioSequence, m c07val) int {
 	return len(w.objs) - 1
 }
 
+// The default quality vector (answer of Qualities() for a sequence without qualities) is a window of ONE package-level
+// array. A history in which the implementation managed to write into it is reported (the model says 40 everywhere), but
+// it must not leak into the histories replayed afterwards: every history starts with that array healed.
+func c07healDefaultQualities() {
+	tmp := NewEmptyBioSequence(0)
+	tmp.Write(make([]byte, 64))
+	q := tmp.Qualities()
+	q = q[:cap(q)]
+	for i := range q {
+		q[i] = 40
+	}
+}
+
 func c07root(root string) *c07world {
+	c07healDefaultQualities()
 	c07resetPools()
 	w := &c07world{putBy: map[*[]byte]string{}, link: map[int]int{}, hidden: map[int]*c07val{}}
 	c07cur = w
 	w.enum = false
+	for k := range w.cb {
+		w.cb[k] = bytes.Repeat([]byte{'Z'}, c07cbLen)
+	}
+	// roots "q" / "n": E2 (with pairing_mismatches); "qx" / "nx": E3 (no positional annotation: the length changes)
+	withPm := len(root) == 1
+	root = root[:1]
 	var s *BioSequence
 	m := c07val{seq: []byte("acg")}
 	if root == "q" {
@@ -855,12 +904,14 @@ func c07root(root string) *c07world {
 	s.SetAttribute("k", 1)
 	s.SetAttribute("m", map[string]int{"x": 1})
 	// mismatches at positions 1 and 3: as obipairing builds them (root n) / as read back from a JSON title line (root q)
-	if root == "q" {
-		s.SetAttribute("pairing_mismatches", map[string]interface{}{c07annKey(1): float64(1), c07annKey(3): float64(3)})
-	} else {
-		s.SetAttribute("pairing_mismatches", map[string]int{c07annKey(1): 1, c07annKey(3): 3})
+	if withPm {
+		if root == "q" {
+			s.SetAttribute("pairing_mismatches", map[string]interface{}{c07annKey(1): float64(1), c07annKey(3): float64(3)})
+		} else {
+			s.SetAttribute("pairing_mismatches", map[string]int{c07annKey(1): 1, c07annKey(3): 3})
+		}
+		m.pm = map[string]int{c07annKey(1): 1, c07annKey(3): 3}
 	}
-	m.pm = map[string]int{c07annKey(1): 1, c07annKey(3): 3}
 	m.ann = c07annCanon(s)
 	w.newObj(s, m)
 	w.tag("setup")
@@ -942,7 +993,7 @@ func (w *c07world) apply(st *c07step, check bool) (v *c07viol) {
 	defer func() { w.enum = false }()
 
 	var arg *c07obj
-	if st.Op != "TGet" && st.Op != "TPut" {
+	if st.Op != "TGet" && st.Op != "TPut" && st.Op != "New" {
 		arg = w.objs[st.A]
 	}
 	opName := st.Op
@@ -957,9 +1008,19 @@ func (w *c07world) apply(st *c07step, check bool) (v *c07viol) {
 		opName = "SetSequence"
 	case "SetFeatBig", "SetFeatSmall":
 		opName = "SetFeatures"
+	case "ClearQual":
+		opName = "ClearQualities"
+	case "SetSeqE":
+		opName = "SetSequence(empty)"
+	case "SetQualE", "SetQualOwnE":
+		opName = "SetQualities(empty)"
+	case "WriteQual":
+		opName = "WriteQualities"
+	case "New":
+		opName = "NewBioSequenceWithQualities(empty)"
 	}
 	w.curOp = opName
-	result := -1       // handle whose value is (re)defined by this op
+	result := -1        // handle whose value is (re)defined by this op
 	cachedPath := false // the receiver of ReverseComplement holds a cached link
 	rcDoc := false      // ReverseComplement answered with the (stale) private copy of the original, as the documented cache does
 	var panicked interface{}
@@ -968,7 +1029,7 @@ func (w *c07world) apply(st *c07step, check bool) (v *c07viol) {
 	}
 	prevMod := w.lastMod[st.A]
 	switch st.Op {
-	case "RCin", "MutSeq", "MutQual", "SetQual", "SetFeat", "SetAttr":
+	case "RCin", "MutSeq", "MutQual", "SetQual", "SetFeat", "SetAttr", "Clear", "ClearQual", "SetSeqE", "SetQualE", "SetQualOwnE", "Write", "WriteQual":
 		defer func(a int, op string) { w.lastMod[a] = op }(st.A, st.Op)
 	}
 	func() {
@@ -1189,6 +1250,49 @@ func (w *c07world) apply(st *c07step, check bool) (v *c07viol) {
 				result = w.newObj(r, nm)
 				w.copyLink(st.A, result)
 			}
+		// ---- E3: operations that empty an object (the buffer keeps its capacity) and that extend it in place ----
+		case "Clear":
+			arg.impl.Clear()
+			arg.m.seq = []byte{}
+			result = st.A
+		case "ClearQual":
+			arg.impl.ClearQualities()
+			arg.m.qual = nil // no quality left: Qualities() answers with the default ones
+			result = st.A
+		case "SetSeqE":
+			w.cbUsed = true
+			arg.impl.SetSequence(w.cb[0][:0])
+			arg.m.seq = []byte{}
+			result = st.A
+		case "SetQualE":
+			w.cbUsed = true
+			arg.impl.SetQualities(w.cb[1][:0])
+			arg.m.qual = nil
+			result = st.A
+		case "SetQualOwnE":
+			arg.impl.SetQualities(arg.impl.Qualities()[:0])
+			arg.m.qual = nil
+			result = st.A
+		case "Write":
+			x := "acgt"[st.A%4]
+			arg.impl.Write([]byte{x})
+			arg.impl.WriteByte(x)
+			arg.m.seq = append(append([]byte{}, arg.m.seq...), x, x)
+			result = st.A
+		case "WriteQual":
+			x := byte(70 + st.A)
+			arg.impl.WriteQualities([]byte{x})
+			arg.impl.WriteByteQualities(x)
+			arg.m.qual = append(append([]byte{}, arg.m.qual...), x, x)
+			result = st.A
+		case "New":
+			w.cbUsed = true
+			r := NewBioSequenceWithQualities("n", w.cb[0][:0], "", w.cb[1][:0])
+			if e := w.existing(r, -1); e >= 0 {
+				v = &c07viol{"NewBioSequenceWithQualities/returns-existing-object", fmt.Sprintf("returned the object obj%d", e)}
+				return
+			}
+			result = w.newObj(r, c07val{seq: []byte{}, feat: r.Features(), ann: c07annCanon(r)})
 		case "TGet":
 			t := &c07tp{held: true}
 			t.b = GetSlice(3)
@@ -1245,6 +1349,12 @@ func (w *c07world) apply(st *c07step, check bool) (v *c07viol) {
 			return &c07viol{opName + "/changes-other-object:" + field, fmt.Sprintf("%s on obj%d: %s", st.Op, st.A, d)}
 		}
 	}
+	if d := w.cbDiff(); d != "" {
+		if len(w.events) > 0 {
+			return &c07viol{"pool/" + w.events[0], fmt.Sprintf("%s; during %s GetSlice was answered with a pooled pointer to a slice that is still in use (%s)", d, st.Op, strings.Join(w.events, ", "))}
+		}
+		return &c07viol{opName + "/writes-into-caller-buffer", fmt.Sprintf("%s on obj%d: %s", st.Op, st.A, d)}
+	}
 	// ---- probe: flip every byte / annotation of every live object; nobody else may move ----
 	if pv := w.probe(st, opName, result); pv != nil {
 		return pv
@@ -1256,7 +1366,7 @@ func (w *c07world) role(i int, st *c07step, result int) string {
 	switch {
 	case i == result && i != st.A:
 		return "result"
-	case i == st.A && st.Op != "TGet" && st.Op != "TPut":
+	case i == st.A && st.Op != "TGet" && st.Op != "TPut" && st.Op != "New":
 		return "receiver"
 	case i == st.B && strings.HasPrefix(st.Op, "Join"):
 		return "argument"
@@ -1278,11 +1388,48 @@ func (w *c07world) probe(st *c07step, opName string, result int) *c07viol {
 				if len(w.events) > 0 {
 					return &c07viol{"pool/" + w.events[0], fmt.Sprintf("after %s, writing %s[%d] of obj%d changes another value: %s (GetSlice handed out a slice still in use: %s)", st.Op, field, k, who, d, strings.Join(w.events, ", "))}
 				}
-				return &c07viol{fmt.Sprintf("%s/shared-mutable-state:%s.%s~%s.%s", opName, w.role(who, st, result), field, w.role(j, st, result), f2),
-					fmt.Sprintf("after %s(obj%d), writing %s[%d] of obj%d changes another value: %s", st.Op, st.A, field, k, who, d)}
+				whoRole, whoName := "caller-buffer", "the caller's buffer"
+				if who >= 0 {
+					whoRole, whoName = w.role(who, st, result)+"."+field, fmt.Sprintf("obj%d", who)
+				}
+				return &c07viol{fmt.Sprintf("%s/shared-mutable-state:%s~%s.%s", opName, whoRole, w.role(j, st, result), f2),
+					fmt.Sprintf("after %s(obj%d), writing %s[%d] of %s changes another value: %s", st.Op, st.A, field, k, whoName, d)}
+			}
+		}
+		if who >= 0 {
+			if d := w.cbDiff(); d != "" {
+				return &c07viol{fmt.Sprintf("%s/shared-mutable-state:%s.%s~caller-buffer", opName, w.role(who, st, result), field),
+					fmt.Sprintf("after %s(obj%d), writing %s[%d] of obj%d changes the buffer of the caller: %s", st.Op, st.A, field, k, who, d)}
 			}
 		}
 		return nil
+	}
+	// the first byte of the spare capacity of a field: what the next append (Write, WriteByte, WriteQualities,
+	// Join in place) of its owner writes
+	spare := func(i int, b []byte, field string) *c07viol {
+		if len(b) >= cap(b) {
+			return nil
+		}
+		ext := b[:len(b)+1]
+		k := len(b)
+		old := ext[k]
+		ext[k] = 'w'
+		v := check(i, field+"(spare-capacity)", k)
+		ext[k] = old
+		return v
+	}
+	// the caller refills its reused buffers with the next record
+	if w.cbUsed {
+		for c := range w.cb {
+			for k := range w.cb[c] {
+				w.cb[c][k] = 'w'
+				v := check(-1, c07cbName(c), k)
+				w.cb[c][k] = 'Z'
+				if v != nil {
+					return v
+				}
+			}
+		}
 	}
 	for i, o := range w.objs {
 		if !o.alive {
@@ -1316,6 +1463,15 @@ func (w *c07world) probe(st *c07step, opName string, result int) *c07viol {
 					return v
 				}
 			}
+		}
+		if v := spare(i, o.impl.sequence, "sequence"); v != nil {
+			return v
+		}
+		if v := spare(i, o.impl.qualities, "qualities"); v != nil {
+			return v
+		}
+		if v := spare(i, o.impl.feature, "feature"); v != nil {
+			return v
 		}
 		for k := range o.impl.feature {
 			old := o.impl.feature[k]
@@ -1433,6 +1589,54 @@ func (w *c07world) enabled(maxObj int, reduced bool) []c07step {
 	return out
 }
 
+// E3 alphabet: operations that empty an object while its buffers keep their capacity (Clear, ClearQualities,
+// SetSequence / SetQualities of an empty view of a buffer the caller keeps or of the object's own vector, empty
+// records built from the caller's reused buffers), Copy / ReverseComplement of such objects, and operations that
+// extend an object in place (Write + WriteByte, WriteQualities + WriteByteQualities), Recycle.
+// ReverseComplement only on objects whose qualities (if any) are as long as the sequence (anything else is not a
+// sequence the statement speaks about) and that are not empty.
+func (w *c07world) enabledEmpty(maxObj int, deep bool) []c07step {
+	var out []c07step
+	room := len(w.objs) < maxObj
+	for i, o := range w.objs {
+		if !o.alive {
+			continue
+		}
+		n := len(o.m.seq)
+		wf := n > 0 && (o.m.qual == nil || len(o.m.qual) == n)
+		if room {
+			out = append(out, c07step{Op: "Copy", A: i})
+			if wf {
+				out = append(out, c07step{Op: "RC", A: i})
+				if deep && n > 1 {
+					out = append(out, c07step{Op: "Sub", A: i, F: 1, T: n}, c07step{Op: "Sub", A: i, F: n - 1, T: 1, Circ: true})
+				}
+			}
+		}
+		if wf {
+			out = append(out, c07step{Op: "RCin", A: i})
+		}
+		if n > 0 {
+			out = append(out, c07step{Op: "Clear", A: i})
+		}
+		if o.m.qual != nil {
+			out = append(out, c07step{Op: "ClearQual", A: i})
+		}
+		out = append(out, c07step{Op: "SetSeqE", A: i}, c07step{Op: "SetQualE", A: i}, c07step{Op: "SetQualOwnE", A: i})
+		if n+2 <= c07cbLen-2 {
+			out = append(out, c07step{Op: "Write", A: i})
+		}
+		if len(o.m.qual)+2 <= c07cbLen-2 {
+			out = append(out, c07step{Op: "WriteQual", A: i})
+		}
+		out = append(out, c07step{Op: "Recycle", A: i})
+	}
+	if room {
+		out = append(out, c07step{Op: "New"})
+	}
+	return out
+}
+
 // canonical state: values of the live objects + aliasing structure of all backing arrays + pool content
 func (w *c07world) canon() string {
 	ids := map[unsafe.Pointer]int{}
@@ -1478,6 +1682,9 @@ func (w *c07world) canon() string {
 	}
 	for j, t := range w.tps {
 		fmt.Fprintf(&sb, "tp%d:%v:%s;", j, t.held, aid(t.b))
+	}
+	if w.cbUsed {
+		fmt.Fprintf(&sb, "cb:%s,%s;", aid(w.cb[0]), aid(w.cb[1]))
 	}
 	var items []string
 	type pi struct {
@@ -1539,7 +1746,7 @@ func c07exec(root string, steps []c07step, checkAll bool) (w *c07world, v *c07vi
 
 func c07histString(root string, steps []c07step) string {
 	var sb strings.Builder
-	if root == "q" {
+	if root[:1] == "q" {
 		sb.WriteString("obj0=NewBioSequenceWithQualities(acg,[10 20 30])")
 	} else {
 		sb.WriteString("obj0=NewBioSequence(acg)")
@@ -1555,6 +1762,20 @@ func c07histString(root string, steps []c07step) string {
 			fmt.Fprintf(&sb, "obj%d=ReverseComplement(obj%d,true)", s.A, s.A)
 		case "Join", "JoinIn":
 			fmt.Fprintf(&sb, "%s(obj%d,obj%d)", s.Op, s.A, s.B)
+		case "SetSeqE":
+			fmt.Fprintf(&sb, "SetSequence(obj%d,callerSeqBuf[:0])", s.A)
+		case "SetQualE":
+			fmt.Fprintf(&sb, "SetQualities(obj%d,callerQualBuf[:0])", s.A)
+		case "SetQualOwnE":
+			fmt.Fprintf(&sb, "SetQualities(obj%d,obj%d.Qualities()[:0])", s.A, s.A)
+		case "Write":
+			fmt.Fprintf(&sb, "Write+WriteByte(obj%d,%q)", s.A, strings.Repeat("acgt"[s.A%4:s.A%4+1], 2))
+		case "WriteQual":
+			fmt.Fprintf(&sb, "WriteQualities+WriteByteQualities(obj%d,[%d %d])", s.A, 70+s.A, 70+s.A)
+		case "ClearQual":
+			fmt.Fprintf(&sb, "ClearQualities(obj%d)", s.A)
+		case "New":
+			sb.WriteString("NewBioSequenceWithQualities(n,callerSeqBuf[:0],callerQualBuf[:0])")
 		case "TGet":
 			sb.WriteString("thirdparty:b=GetSlice(3);fill(b)")
 		case "TPut":
@@ -1590,6 +1811,8 @@ type c07node struct {
 }
 
 func c07e2(r *verifkit.Result, pfx string, depth, maxObj, split int, reduced bool, roots []string) {
+	empty := strings.HasPrefix(pfx, "e3") // E3: the alphabet of emptied / extended objects
+	kind := strings.ToUpper(pfx[:2])
 	visited := map[uint64]struct{}{}
 	var frontier []c07node
 	for _, root := range roots {
@@ -1598,7 +1821,7 @@ func c07e2(r *verifkit.Result, pfx string, depth, maxObj, split int, reduced boo
 		frontier = append(frontier, c07node{root: root})
 	}
 	report := func(root string, steps []c07step, v *c07viol) {
-		r.Violate(v.key, c07histString(root, steps)+" ==> "+v.desc, c07case{Kind: "E2", Root: root, Steps: steps})
+		r.Violate(v.key, c07histString(root, steps)+" ==> "+v.desc, c07case{Kind: kind, Root: root, Steps: steps})
 	}
 	for d := 1; d <= depth; d++ {
 		var next []c07node
@@ -1614,7 +1837,11 @@ func c07e2(r *verifkit.Result, pfx string, depth, maxObj, split int, reduced boo
 			if v != nil {
 				panic("c07: frontier history no longer replays cleanly: " + v.key)
 			}
-			for _, op := range w.enabled(maxObj, reduced) {
+			ops := w.enabled(maxObj, reduced)
+			if empty {
+				ops = w.enabledEmpty(maxObj, reduced)
+			}
+			for _, op := range ops {
 				// DFS over the pool answers of this op
 				stack := [][]int{{}}
 				for len(stack) > 0 {
@@ -1638,6 +1865,9 @@ func c07e2(r *verifkit.Result, pfx string, depth, maxObj, split int, reduced boo
 						r.Eval(1)
 						r.Trans(1)
 						r.Count(fmt.Sprintf("%s_histories_depth%d", pfx, d), 1)
+						if empty {
+							c07e3count(r, w2, last)
+						}
 						r.Count("e2_pool_gets", int64(len(used)))
 						for _, c := range used {
 							if c > 0 {
@@ -1671,6 +1901,34 @@ func c07e2(r *verifkit.Result, pfx string, depth, maxObj, split int, reduced boo
 	r.Count(pfx+"_frontier_left_at_depth_bound", int64(len(frontier)))
 }
 
+// what makes an E3 history interesting: an append executed while another live object (or the caller's buffer) is empty,
+// and appends on objects that were emptied
+func c07e3count(r *verifkit.Result, w *c07world, last *c07step) {
+	switch last.Op {
+	case "Clear", "ClearQual", "SetQualOwnE":
+		r.Count("e3_emptying_operations", 1)
+	case "SetSeqE", "SetQualE", "New":
+		r.Count("e3_emptying_operations", 1)
+		r.Count("e3_empty_views_of_the_callers_buffers_passed", 1)
+	}
+	if last.Op != "Write" && last.Op != "WriteQual" {
+		return
+	}
+	r.Count("e3_appends", 1)
+	emptyLive := 0
+	for i, o := range w.objs {
+		if i != last.A && o.alive && (len(o.m.seq) == 0 || (last.Op == "WriteQual" && o.m.qual == nil)) {
+			emptyLive++
+		}
+	}
+	if emptyLive > 0 {
+		r.Count("e3_appends_while_another_live_object_is_empty", 1)
+	}
+	if w.cbUsed {
+		r.Count("e3_appends_after_an_empty_view_of_the_callers_buffer_was_passed", 1)
+	}
+}
+
 // ------------------------------------------------------------------------------------------------
 
 func TestVerifC07(t *testing.T) {
@@ -1699,7 +1957,7 @@ func TestVerifC07(t *testing.T) {
 			c07cur = nil
 			c07resetPools()
 			c07e1ann(c, fail(c))
-		case "E2":
+		case "E2", "E3":
 			_, v, at := c07exec(c.Root, c.Steps, true)
 			if v != nil {
 				r.Violate(v.key, c07histString(c.Root, c.Steps[:at+1])+" ==> "+v.desc, c)
@@ -1717,12 +1975,18 @@ func TestVerifC07(t *testing.T) {
 	r.Bound("e1_max_length", maxLen)
 	r.Bound("e1_quality_vectors", "none, q[i]=i, q[i]=93-i")
 
+	// development only: VERIF_C07_SECTIONS=e1,e2,e3 restricts the run to the named sections
+	section := func(name string) bool {
+		sel := os.Getenv("VERIF_C07_SECTIONS")
+		return sel == "" || strings.Contains(","+sel+",", ","+name+",")
+	}
+
 	// ---- E1 ----
 	c07cur = nil
 	k := 0
 	verifkit.Strings(c07Alphabet, 1, maxLen, func(s string) {
 		k++
-		if !r.Mine(k) || r.Expired() {
+		if !section("e1") || !r.Mine(k) || r.Expired() {
 			return
 		}
 		r.State("E1:" + s)
@@ -1745,7 +2009,7 @@ func TestVerifC07(t *testing.T) {
 	for L := 1; L <= 6; L++ {
 		for mask := 1; mask < 1<<L; mask++ {
 			k++
-			if !r.Mine(k) {
+			if !section("e1") || !r.Mine(k) {
 				continue
 			}
 			var pos []int
@@ -1773,12 +2037,32 @@ func TestVerifC07(t *testing.T) {
 	r.Bound("e2_source", "acg, with qualities [10 20 30] and without; annotations k=1, m={x:1}")
 	r.Bound("e2_third_party_buffers_held", c07maxTP)
 	r.Bound("e2_full_op_set", "depth 4, at most 3 objects: Copy, ReverseComplement(false|true), Subsequence x4 windows, MutSeq, MutQual, SetQualities, SetSequence, SetFeatures(cap 300|cap 3), SetAttribute, nested-map write, Recycle, Join(false|true), third-party GetSlice / RecycleSlice")
-	c07e2(r, "e2", 4, 3, 2, false, roots)
-	if thorough {
+	if section("e2") {
+		c07e2(r, "e2", 4, 3, 2, false, roots)
+	}
+	if thorough && section("e2") {
 		r.Bound("e2deep_reduced_op_set", "source with qualities only, depth 5, at most 4 objects: as above without MutQual, SetAttribute and the full-length Subsequence window (the probe after every step still flips every quality byte and annotation)")
 		c07e2(r, "e2deep", 5, 4, 2, true, []string{"q"})
 	}
+	// ---- E3: emptied objects (the buffer keeps its capacity), copies of them, appends on both sides ----
+	r.Bound("e3_op_set", "sources acg with / without qualities (no positional annotation); depth 4, at most 3 objects (thorough: depth 5; + 2 Subsequence windows): Copy, ReverseComplement(false|true) of non-empty objects, Clear, ClearQualities, SetSequence(callerBuf[:0]), SetQualities(callerBuf[:0]), SetQualities(own Qualities()[:0]), NewBioSequenceWithQualities(callerSeqBuf[:0], callerQualBuf[:0]), Write+WriteByte (2 bytes, length <= 6), WriteQualities+WriteByteQualities, Recycle; every pool answer")
+	if section("e3") {
+		if thorough {
+			c07e2(r, "e3", 5, 3, 2, true, []string{"qx", "nx"})
+		} else {
+			c07e2(r, "e3", 4, 3, 2, false, []string{"qx", "nx"})
+		}
+	}
+	r.Sample(c07case{Kind: "E3", Root: "nx", Steps: []c07step{{Op: "Clear", A: 0}, {Op: "Copy", A: 0, Ch: []int{0, 0, 0}}, {Op: "Write", A: 0}, {Op: "Write", A: 1}}})
 	r.Sample(c07case{Kind: "E2", Root: "q", Steps: []c07step{{Op: "SetQual", A: 0, Ch: []int{0}}, {Op: "Copy", A: 0, Ch: []int{1, 0, 0}}}})
+	if os.Getenv("VERIF_C07_SECTIONS") != "" {
+		return
+	}
 	r.RequireNonVacuous("e2_pool_gets_answered_with_pooled_item")
 	r.RequireNonVacuous("e1_law_instances")
+	// guards on what is executed whatever the implementation answers (the finer counters e3_appends_while_... /
+	// e3_appends_after_... tell how many appends met an emptied object: they drop when violations cut the search)
+	r.RequireNonVacuous("e3_emptying_operations")
+	r.RequireNonVacuous("e3_empty_views_of_the_callers_buffers_passed")
+	r.RequireNonVacuous("e3_appends")
 }
